@@ -186,11 +186,6 @@ func bodyC16(s *Sim) {
 	s.Setup()
 	def := s.W.EDS[0]
 	key := types.NamespacedName{Namespace: def.NS, Name: def.Name}
-	if n := s.W.Extra["templateName"]; n != "" {
-		e := s.Store.GetEDS(def.NS, def.Name)
-		e.Spec.Template.Name = n
-		s.Store.ForceUpdate(e)
-	}
 	all := func() {
 		s.RunTask(CtrlEDS, key)
 		for _, r := range s.Store.ERSs() {
